@@ -120,6 +120,9 @@ var c17Bufs = []int{1, 2, 3, 7, 65536}
 
 type c17cfg struct {
 	maxParts, maxBytes, maxReaders int
+	// dirty: the directory already holds a (longer) file of the same name when the disk file is created - a
+	// left-over of an earlier run of a muxer with the same Directory, or a name that is used again
+	dirty bool
 }
 
 func (s *mstate) enabled(cfg c17cfg) []sop {
@@ -464,6 +467,11 @@ func c17RunPath(dir string, cfg c17cfg, ops []sop, observeAll bool) (*mstate, st
 	m := &mstate{}
 	name := fmt.Sprintf("f%d.bin", c17FileCounter.Add(1))
 	ram, _ := NewFactoryRAM().NewFile(name)
+	if cfg.dirty {
+		if err := os.WriteFile(filepath.Join(dir, name), bytes.Repeat([]byte{0xEE}, 40), 0o644); err != nil {
+			return nil, "engine", err
+		}
+	}
 	disk, err := NewFactoryDisk(dir).NewFile(name)
 	if err != nil {
 		return nil, "engine", err
@@ -498,9 +506,9 @@ func c17RunPath(dir string, cfg c17cfg, ops []sop, observeAll bool) (*mstate, st
 
 func c17List(tier string) []vh.Scenario {
 	if tier == "thorough" {
-		return []vh.Scenario{{Name: "parts=3,bytes=4,readers=1", Weight: 100}, {Name: "parts=2,bytes=3,readers=2", Weight: 100}, {Name: "parts=4,bytes=3,readers=1", Weight: 100}, {Name: "parts=2,bytes=5,readers=1", Weight: 50}}
+		return []vh.Scenario{{Name: "parts=3,bytes=4,readers=1", Weight: 100}, {Name: "parts=2,bytes=3,readers=2", Weight: 100}, {Name: "parts=4,bytes=3,readers=1", Weight: 100}, {Name: "parts=2,bytes=5,readers=1", Weight: 50}, {Name: "parts=3,bytes=3,readers=1,dirty", Weight: 50}}
 	}
-	return []vh.Scenario{{Name: "parts=3,bytes=3,readers=1", Weight: 50}, {Name: "parts=2,bytes=2,readers=2", Weight: 50}}
+	return []vh.Scenario{{Name: "parts=3,bytes=3,readers=1", Weight: 50}, {Name: "parts=2,bytes=2,readers=2", Weight: 50}, {Name: "parts=2,bytes=2,readers=1,dirty", Weight: 30}}
 }
 
 func c17ErrClass(msg string) string {
@@ -516,6 +524,7 @@ func c17ErrClass(msg string) string {
 func c17Run(c *vh.Ctx) {
 	var cfg c17cfg
 	fmt.Sscanf(c.Scenario, "parts=%d,bytes=%d,readers=%d", &cfg.maxParts, &cfg.maxBytes, &cfg.maxReaders)
+	cfg.dirty = strings.HasSuffix(c.Scenario, ",dirty")
 	dir, err := os.MkdirTemp(c.Scratch, "c17-")
 	if err != nil {
 		c.EngineError("mkdir: %v", err)
